@@ -1,6 +1,6 @@
 (* C05 - After unschedule/remove/stop returns, the removed handler is never called again. *)
 Require Import WD.Base.Prelude WD.Model.Observer WD.Proofs.ObserverProofs WD.Proofs.ObserverInv WD.Proofs.ObserverRet
-  WD.Proofs.ObserverDisp WD.Proofs.ObserverLive WD.Proofs.ObserverEm WD.Proofs.ObserverExamples.
+  WD.Proofs.ObserverDisp WD.Proofs.ObserverLive WD.Proofs.ObserverEm WD.Proofs.ObserverRet2 WD.Proofs.ObserverExamples.
 
 (* In every run: if a callback (h,w,_) occurs after a removal event that covers (h,w) - the mutation of
    remove_handler_for_watch (GRemoved), unschedule / a failed start (GRemovedW), unschedule_all / stop
@@ -112,13 +112,28 @@ Theorem C05_retired_silent : forall e s l, Retired s e -> em_of l = Some e -> st
 Proof. exact retired_silent. Qed.
 Print Assumptions C05_retired_silent.
 
-(* Return-label form of the emitter half.  Still a Definition; what is left is purely structural and of the same
-   kind as the ret-invariant behind C05_full: "a non-raised GRet t (CUnschedule w) is preceded, since the begin of
-   that call, by t's own GUnsched t w e0 and GEmJoin t e0 _" (program order of `body`, cf. C05_unschedule_joins).
-   With it, C05_emitter_removed_joined_never_puts gives: no GPut e0 after that Return. *)
-Definition C05_emitter_full : Prop := forall s, reachable s ->
+(* EMITTER HALF, FULL STATEMENT in Return-label form (the log is newest-first).  If an emitter e puts an event
+   for w after the non-raised Return of unschedule(w) by thread t, then: between the begin of that call and its
+   Return lie t's own removal event GUnsched t w e0 (the emitter the call took out of the registry) and, after it,
+   t's own join of e0 (GEmJoin t e0 ok; ok = false: the emitter thread had never been started) - and e is NOT
+   that emitter: the emitter of the unscheduled watch has stopped producing events, whether it was running or
+   had never been started (it is never started later).  A put for w after the Return can only come from an
+   emitter that a later schedule() created. *)
+Theorem C05_emitter_full : forall s, reachable s ->
   forall l3 e w ev l2 t l1, glog s = l3 ++ GPut e w ev :: l2 ++ GRet t (CUnschedule w) false :: l1 ->
-    exists la e0 lb, l1 = la ++ GUnsched t w e0 :: lb /\ (exists ok, In (GEmJoin t e0 ok) la) /\ e <> e0.
+    exists la e0 lb, l1 = la ++ GUnsched t w e0 :: lb /\ (exists ok, In (GEmJoin t e0 ok) la) /\
+      (forall x, In x la -> is_call_of x t (CUnschedule w) = false) /\ e <> e0.
+Proof. exact no_put_after_unschedule_return. Qed.
+Print Assumptions C05_emitter_full.
+
+(* non-vacuity: a run with a put for the watch after the Return of its unschedule - by a new emitter *)
+Example C05_emitter_full_nonvacuous :
+  option_map (fun s => filter (fun g => match g with GUnsched _ _ _ | GEmJoin _ _ _ | GRet _ (CUnschedule _) _ | GPut _ _ _ | GEmNew _ _ => true
+                                                    | _ => false end) (glog s))
+             (run init tr_put_after_unschedule_return)
+  = Some [GPut 1%nat 2%N 8%N; GEmNew 1%nat 2%N; GRet (TA 0) (CUnschedule 2%N) false;
+          GEmJoin (TA 0) 0%nat true; GUnsched (TA 0) 2%N 0%nat; GPut 0%nat 2%N 7%N; GEmNew 0%nat 2%N].
+Proof. vm_compute. reflexivity. Qed.
 
 Example C05_emitter_nonvacuous :
   option_map (fun s => (filter (fun g => match g with GUnsched _ _ _ | GEmJoin _ _ _ => true | _ => false end) (glog s),
